@@ -243,7 +243,15 @@ func init() {
 						cs = append(cs, fw.Case{ID: fmt.Sprintf("%s/PartialInterpolateExtAlgebra/%d", f, n), Kind: "list", P: map[string]any{"face": f, "op": "PartialInterpolateExtAlgebra", "n": n}})
 					}
 				}
-				cs = append(cs, fw.Case{ID: "commit/mixed", Kind: "commit", P: map[string]any{}})
+				cs = append(cs, fw.Case{ID: "commit/mixed", Kind: "commit", P: map[string]any{"face": "commit"}})
+				// all operations interleaved on ONE chip in ONE circuit under the in-line faces
+				nm := 2
+				if !ctx.Quick {
+					nm = 30
+				}
+				for i := 0; i < nm; i++ {
+					cs = append(cs, fw.Case{ID: fmt.Sprintf("native/mixed/%d", i), Kind: "commit", P: map[string]any{"face": "native"}})
+				}
 				for _, sys := range []string{"r1cs", "scs"} {
 					cs = append(cs, fw.Case{ID: "solver/" + sys, Kind: "solver", P: map[string]any{"sys": sys}})
 				}
@@ -416,7 +424,8 @@ func init() {
 							ps = append(ps, &pend{op: op, in: in, par: c08Exponent(r, k)})
 						}
 					}
-					res := harnRunCommitPadded(func(api frontend.API) {
+					r.Shuffle(len(ps), func(i, j int) { ps[i], ps[j] = ps[j], ps[i] })
+					body := func(api frontend.API) {
 						g := gl.New(api)
 						for _, p := range ps {
 							var vin []frontend.Variable
@@ -425,7 +434,13 @@ func init() {
 							}
 							p.outs = p.op.Fn(g, api, vin, p.par)
 						}
-					}, gadget.PadCommit)
+					}
+					var res engine.Result
+					if c.Str("face") == "native" {
+						res = harnRunOpt(engine.Options{Face: engine.Native}, func(api frontend.API) error { body(api); return nil })
+					} else {
+						res = harnRunCommitPadded(body, gadget.PadCommit)
+					}
 					o.Events += events(res)
 					if io, bad := inconclusiveIf(res); bad {
 						return io
@@ -439,12 +454,12 @@ func init() {
 						for i := range got {
 							got[i] = engine.Value(p.outs[i])
 						}
-						if v, bad := compare(p.op.Name, p.op.Exact, got, want, fmt.Sprintf("%s(%v) face=commit", p.op.Name, p.in)); bad {
+						if v, bad := compare(p.op.Name, p.op.Exact, got, want, fmt.Sprintf("%s(%v) in a mixed sequence, face=%s", p.op.Name, p.in, c.Str("face"))); bad {
 							return v
 						}
 						o.Inc("tuples_checked")
 					}
-					o.Sample = map[string]any{"face": "commit", "tuples": len(ps)}
+					o.Sample = map[string]any{"face": c.Str("face"), "operations_on_one_chip": len(ps)}
 				case "solver":
 					sys := c.Str("sys")
 					// one compiled circuit computing Mul, Div, MulAdd, SubMul and the algebra product
